@@ -160,6 +160,17 @@ def _find_batch(prop, batch_name):
 
 
 def _run_chunk(prop, batch_name, start, end, root, digest_every, state_mask=0):
+    """Every chunk runs in its own forked child of the (clean) pool worker: whatever a run leaves behind in
+    process-wide state can reach at most the later runs of the same chunk, and a violation that only shows
+    after such a history can be reproduced from the chunk's start (see _history_dependent)."""
+    cd, batch = _find_batch(prop, batch_name)
+    return isolated(
+        lambda: _run_chunk_inner(prop, batch_name, start, end, root, digest_every, state_mask),
+        batch.per_run_timeout_s * (end - start) + 120,
+    )
+
+
+def _run_chunk_inner(prop, batch_name, start, end, root, digest_every, state_mask=0):
     faulthandler.enable()
     cd, batch = _find_batch(prop, batch_name)
     agg = Aggregate()
@@ -191,7 +202,7 @@ def _run_chunk(prop, batch_name, start, end, root, digest_every, state_mask=0):
                 res.trans = {h for h in res.trans if not (h & state_mask)}
             trace_meta = dict(trace)
             trace_meta.setdefault("run_index", i)
-            agg.add(batch_name, i, seed, trace_meta, res, digest_every and i % digest_every == 0)
+            agg.add(batch_name, i, seed, trace_meta, res, digest_every and i % digest_every == 0, start)
     finally:
         pass
     return agg
@@ -265,6 +276,42 @@ def _resample(prop, agg, root, limit):
     return resampled, equal, mismatches
 
 
+def _history_dependent(cd, batch, prop, kind, root, chunk_start, index, trace):
+    """A violation seen by a worker that does not reproduce on its own: re-run the earlier runs of its chunk
+    in a fresh child and look again.  Returns a (ddmin-reduced) list of prelude indices or None."""
+    batch_name = batch.name
+
+    def attempt(indices):
+        def body():
+            for i in indices:
+                try:
+                    run_guarded(batch, rng.run_seed(root, prop, batch_name, i), prop, cd.hang_is_violation)
+                except Exception:  # noqa: BLE001
+                    pass
+            r = execute_guarded(batch, trace, prop, cd.hang_is_violation)
+            return [v for v in r.violations if v["property"] == prop and v["kind"] == kind], r.digest, batch.describe(trace)
+
+        try:
+            return isolated(body, batch.per_run_timeout_s * (len(indices) + 1) + 60)
+        except Exception:  # noqa: BLE001
+            return [], "", None
+
+    full = list(range(chunk_start, index))
+    if not full:
+        return None
+    got = attempt(full)
+    if not got[0]:
+        return None
+    from .shrink import ddmin_list
+
+    budget = Budget(max_execs=60, max_seconds=90)
+    keep = ddmin_list(full, lambda ix: bool(attempt(ix)[0]), budget)
+    final = attempt(keep)
+    if not final[0]:
+        keep, final = full, got
+    return keep, final
+
+
 def _kind_key(v):
     return (v["property"], v["kind"])
 
@@ -293,7 +340,7 @@ def _minimise(cd, batch, trace, prop, kind):
     return small, budget.execs
 
 
-def _write_replay(prop, batch, root, index, seed, trace, res, minimised, shrink_execs, readable=None):
+def _write_replay(prop, batch, root, index, seed, trace, res, minimised, shrink_execs, readable=None, prelude=None):
     os.makedirs(REPLAY_DIR, exist_ok=True)
     v = next((x for x in res.violations if x["property"] == prop), None)
     doc = {
@@ -311,6 +358,8 @@ def _write_replay(prop, batch, root, index, seed, trace, res, minimised, shrink_
         "digest": res.digest,
         "readable": readable if readable is not None else batch.describe(trace),
     }
+    if prelude:
+        doc["prelude"] = prelude
     path = os.path.join(REPLAY_DIR, f"{prop}-{batch.name}-{root}-{index}.json")
     with open(path, "w") as f:
         json.dump(doc, f, indent=1, sort_keys=True, default=repr)
@@ -323,6 +372,16 @@ def replay(path: str) -> int:
         doc = json.load(f)
     prop = doc["property"]
     cd, batch = _find_batch(prop, doc["batch"])
+    prelude = doc.get("prelude")
+    if prelude:
+        # the violation depends on what earlier simulated runs left behind in this process
+        print(f"  executing {len(prelude['indices'])} prelude runs of batch {prelude['batch']} first")
+        _, pb = _find_batch(prop, prelude["batch"])
+        for i in prelude["indices"]:
+            try:
+                run_guarded(pb, rng.run_seed(prelude["verif_seed"], prop, prelude["batch"], i), prop, cd.hang_is_violation)
+            except Exception:  # noqa: BLE001
+                pass
     res = execute_guarded(batch, doc["trace"], prop, cd.hang_is_violation)
     want = doc.get("violation") or {}
     same = [
@@ -449,12 +508,12 @@ def run_check(prop: str, tier: str) -> int:
 
     # ---- violations: one representative per kind (lowest run index), minimised
     by_kind = {}
-    for batch_name, index, seed, trace, vios, hang in sorted(agg.violations, key=lambda x: (x[1], x[0])):
+    for batch_name, index, seed, trace, vios, hang, cstart in sorted(agg.violations, key=lambda x: (x[1], x[0])):
         for v in vios:
             if v["property"] != prop:
                 continue
-            by_kind.setdefault(v["kind"], (batch_name, index, seed, trace))
-    for kind, (batch_name, index, seed, trace) in sorted(by_kind.items())[:4]:
+            by_kind.setdefault(v["kind"], (batch_name, index, seed, trace, cstart))
+    for kind, (batch_name, index, seed, trace, cstart) in sorted(by_kind.items())[:4]:
         _, batch = _find_batch(prop, batch_name)
         trace = {k: v for k, v in trace.items() if k != "run_index"}
         small, execs = _minimise(cd, batch, trace, prop, kind)
@@ -471,15 +530,29 @@ def run_check(prop: str, tier: str) -> int:
         res = Result()
         res.violations = vios_f
         res.digest = digest_f
+        prelude = None
         mine = [v for v in res.violations if v["property"] == prop and v["kind"] == kind]
         if not mine:
-            agg.errors.append(
-                f"violation {kind} of run {batch_name}/{index} did not reproduce in the parent process"
-            )
-            continue
+            # not reproducible on its own: does it depend on the earlier runs of its chunk?
+            hd = _history_dependent(cd, batch, prop, kind, root, cstart, index, trace)
+            if hd is None:
+                agg.errors.append(
+                    f"violation {kind} of run {batch_name}/{index} did not reproduce in a fresh process, "
+                    f"neither alone nor after the earlier runs of its chunk ({cstart}..{index - 1})"
+                )
+                continue
+            keep, (mine, digest_f, readable_f) = hd
+            small = trace
+            res.violations = list(mine)
+            res.digest = digest_f
+            prelude = {"batch": batch_name, "indices": keep, "verif_seed": root,
+                       "note": "the violation only shows after these earlier simulated runs in the same process "
+                               "(state leaking between simulations)"}
+            for v in mine:
+                v.setdefault("detail", {})["history_dependent"] = f"after {len(keep)} earlier run(s) in the same process"
         res.violations = mine + [v for v in res.violations if v not in mine]
         entry = findings.match(prop, small, mine[0])
-        path = _write_replay(prop, batch, root, index, seed, small, res, small is not trace, execs, readable_f)
+        path = _write_replay(prop, batch, root, index, seed, small, res, small is not trace, execs, readable_f, prelude)
         rc, out = _fresh_replay(path)
         if rc != 1:
             agg.errors.append(
